@@ -6,7 +6,7 @@ From V.lib Require Import Base.
 From V.c13 Require Import C13Spec C13Model C13Bits C13EscProofs C13MarkProofs
   C13WriterProofs C13ReaderProofs C13RoundTrip C13PlainProofs
   C13ModelExt C13TrailProofs C13FswProofs C13FswRoundTrip C13ByteWriterProofs
-  C13WideProofs C13StickyProofs C13FailProofs C13ExactProofs C13SpillProofs C13SignedProofs C13UeLoopProofs.
+  C13WideProofs C13StickyProofs C13FailProofs C13ExactProofs C13SpillProofs C13SignedProofs C13UeLoopProofs C13ReadAnyProofs.
 
 (* ---- emulation prevention, byte level, every byte string ---- *)
 Theorem C13_unescape_escape : forall l : list N, unescape (escape l) = l.
@@ -259,50 +259,78 @@ Example ex_bw : bbytes (run_bw 9 [BU 2 258; BU48 1108152157446; BU 4 7; BSlice [
 Proof. vm_compute. split; reflexivity. Qed.
 
 (* ================================================================== second extension (C13b) *)
-(* ---- widths: the exact domain of the 64-bit accumulators ---- *)
-(* Write(bits, n) appends exactly the n low bits whenever pending + n <= 64: every n <= 57 at any alignment,
-   up to n = 64 at a byte boundary; n = 0 appends nothing *)
-Theorem C13_write_exact_fit : forall esc s raw bits n,
-  WInv esc s raw -> wn s + n <= 64 ->
-  exists raw',
-    WInv esc (write_gen esc s bits n) raw' /\
-    bytes_to_bits raw' ++ pending (write_gen esc s bits n)
-    = bytes_to_bits raw ++ pending s ++ bits_of (N.to_nat n) bits /\
-    exists added, raw' = raw ++ added /\ Forall (fun b => b < 256) added.
-Proof. exact write_gen_fit. Qed.
-Print Assumptions C13_write_exact_fit.
+(* (related statements are grouped into one theorem each: every Print Assumptions costs about a second) *)
 
-(* a value wider than n bits is masked, never spilled into the neighbouring values *)
-Theorem C13_write_masks_value : forall esc s bits n,
-  write_gen esc s bits n = write_gen esc s (bits mod 2 ^ n) n.
-Proof. exact write_gen_masks. Qed.
-Print Assumptions C13_write_masks_value.
+(* ---- Write(bits, n) for every width up to 64 ---- *)
+(* (1) any n <= 64: the stream receives the n low bits of `bits`, preceded by the pending bits with those that do not
+       fit the 64-bit accumulator beside them replaced by zeros; nothing else changes;
+   (2) the zeroed bits are exactly the topmost pending + n - 64 pending bits;
+   (3) so with pending + n <= 64 (every n <= 57 at any alignment, 64 at a byte boundary, n = 0) nothing is lost;
+   (4) a value wider than n bits is masked, never spilled into the neighbouring values *)
+Theorem C13_write_widths :
+  (forall esc s raw bits n,
+     WInv esc s raw -> n <= 64 ->
+     exists raw',
+       WInv esc (write_gen esc s bits n) raw' /\
+       bytes_to_bits raw' ++ pending (write_gen esc s bits n)
+       = bytes_to_bits raw ++ bits_of (N.to_nat (wn s)) (wv s mod 2 ^ (64 - n)) ++ bits_of (N.to_nat n) bits /\
+       exists added, raw' = raw ++ added /\ Forall (fun b => b < 256) added) /\
+  (forall wn0 wv0 n,
+     n <= 64 ->
+     bits_of wn0 (wv0 mod 2 ^ (64 - n))
+     = repeat false (wn0 - N.to_nat (64 - n)) ++ bits_of (Nat.min wn0 (N.to_nat (64 - n))) wv0) /\
+  (forall esc s raw bits n,
+     WInv esc s raw -> wn s + n <= 64 ->
+     exists raw',
+       WInv esc (write_gen esc s bits n) raw' /\
+       bytes_to_bits raw' ++ pending (write_gen esc s bits n)
+       = bytes_to_bits raw ++ pending s ++ bits_of (N.to_nat n) bits /\
+       exists added, raw' = raw ++ added /\ Forall (fun b => b < 256) added) /\
+  (forall esc s bits n, write_gen esc s bits n = write_gen esc s (bits mod 2 ^ n) n).
+Proof. exact (conj write_gen_any (conj pending_truncated (conj write_gen_fit write_gen_masks))). Qed.
+Print Assumptions C13_write_widths.
 
-(* pending + n = 65: the first pending bit is lost (witness: 7 one bits, then Write(1, 58)); 64 bits at a byte
-   boundary are fine *)
-Theorem C13_write_spill_refuted :
+(* ---- EBSPReader.Read(n) for every width ---- *)
+(* (1) Read(n) returns the true n-bit value modulo 2^(64 - k), k = the bits left pending afterwards (the refill loop
+       shifts whole bytes through the 64-bit accumulator); the position in the stream is right in every case;
+   (2) hence exact whenever n + k <= 64, e.g. 64 bits that end at a byte boundary;
+   (3) in particular for every n <= 57 at any alignment;
+   (4) and it fails (0, error set) exactly when fewer than n bits are left *)
+Theorem C13_read_widths :
+  (forall s n,
+     RInv s -> rn s < 8 -> n <= N.of_nat (length (rbits s)) ->
+     let '(v, s') := read s n in
+     v = val_of (firstn (N.to_nat n) (rbits s)) mod 2 ^ (64 - rn s') /\
+     rbits s' = skipn (N.to_nat n) (rbits s) /\
+     RInv s' /\ rn s' < 8 /\ rdata s' = rdata s) /\
+  (forall s n,
+     RInv s -> rn s < 8 -> n <= N.of_nat (length (rbits s)) ->
+     n + rn (snd (read s n)) <= 64 ->
+     fst (read s n) = val_of (firstn (N.to_nat n) (rbits s))) /\
+  (forall s n,
+     RInv s -> rn s < 8 -> n <= 57 -> n <= N.of_nat (length (rbits s)) ->
+     let '(v, s') := read s n in
+     v = val_of (firstn (N.to_nat n) (rbits s)) /\
+     rbits s' = skipn (N.to_nat n) (rbits s) /\
+     RInv s' /\ rn s' < 8 /\ rdata s' = rdata s) /\
+  (forall s n,
+     RInv s -> rn s < 8 -> n <= 57 -> N.of_nat (length (rbits s)) < n ->
+     fst (read s n) = 0 /\ rerr (snd (read s n)) = true).
+Proof. exact (conj read_any (conj read_exact_fit (conj read_spec57 read_fail57))). Qed.
+Print Assumptions C13_read_widths.
+
+(* the bounds are tight.  pending + n = 65: 7 one bits, then Write(1, 58) - the first pending bit is lost; 64 bits at
+   a byte boundary are fine; Read(58) with 1 bit pending returns 57 one bits instead of 58 *)
+Theorem C13_width_bounds_refuted :
   (let ops := [WBits 127 7; WBits 1 58] in
    fst (run_reader (map rop_of ops) (rinit (wout (run_writer (ops ++ [WTrail]))))) = [VN 63; VN 1]) /\
   (let ops := [WBits 255 8; WBits 18446744073709551615 64] in
    fst (run_reader [RBits 8; RBits 32; RBits 32] (rinit (wout (run_writer (ops ++ [WTrail])))))
-   = [VN 255; VN 4294967295; VN 4294967295]).
-Proof. exact (conj write_spill_58 write_64_aligned). Qed.
-Print Assumptions C13_write_spill_refuted.
-
-Theorem C13_read_bits57 : forall s n,
-  RInv s -> rn s < 8 -> n <= 57 -> n <= N.of_nat (length (rbits s)) ->
-  let '(v, s') := read s n in
-  v = val_of (firstn (N.to_nat n) (rbits s)) /\
-  rbits s' = skipn (N.to_nat n) (rbits s) /\
-  RInv s' /\ rn s' < 8 /\ rdata s' = rdata s.
-Proof. exact read_spec57. Qed.
-Print Assumptions C13_read_bits57.
-
-Theorem C13_read_spill_refuted :
-  let s1 := snd (read (rinit (repeat 255 10)) 7) in
-  fst (read s1 58) = 2 ^ 57 - 1 /\ rerr (snd (read s1 58)) = false.
-Proof. exact read_spill_58. Qed.
-Print Assumptions C13_read_spill_refuted.
+   = [VN 255; VN 4294967295; VN 4294967295]) /\
+  (let s1 := snd (read (rinit (repeat 255 10)) 7) in
+   fst (read s1 58) = 2 ^ 57 - 1 /\ rerr (snd (read s1 58)) = false).
+Proof. exact (conj write_spill_58 (conj write_64_aligned read_spill_58)). Qed.
+Print Assumptions C13_width_bounds_refuted.
 
 (* ---- Exp-Golomb over the whole range of the code ---- *)
 (* the repaired WriteExpGolomb: every value is either coded exactly (<= 2^57 - 2) or refused, error set, nothing
@@ -314,18 +342,16 @@ Theorem C13_ue_total : forall s cur v,
 Proof. exact write_ue_x_total. Qed.
 Print Assumptions C13_ue_total.
 
-(* the reader decodes every code up to 2^58 - 2 at any alignment *)
-Theorem C13_read_ue57 : forall s v rest,
-  RGood s -> v + 1 < 2 ^ 58 -> rbits s = ue_code' v ++ rest ->
-  exists s', read_ue s = (v, s') /\ rbits s' = rest /\ RGood s' /\ rdata s' = rdata s.
-Proof. exact read_ue_spec57. Qed.
-Print Assumptions C13_read_ue57.
-
-Theorem C13_se_mapping57 : forall s k rest,
-  RGood s -> se_to_ue k + 1 < 2 ^ 58 -> rbits s = ue_code' (se_to_ue k) ++ rest ->
-  exists s', read_se s = (k, s') /\ rbits s' = rest /\ RGood s' /\ rdata s' = rdata s.
-Proof. exact read_se_spec57. Qed.
-Print Assumptions C13_se_mapping57.
+(* the reader decodes every unsigned code up to 2^58 - 2, and the signed mapping of it, at any alignment *)
+Theorem C13_read_golomb57 :
+  (forall s v rest,
+     RGood s -> v + 1 < 2 ^ 58 -> rbits s = ue_code' v ++ rest ->
+     exists s', read_ue s = (v, s') /\ rbits s' = rest /\ RGood s' /\ rdata s' = rdata s) /\
+  (forall s k rest,
+     RGood s -> se_to_ue k + 1 < 2 ^ 58 -> rbits s = ue_code' (se_to_ue k) ++ rest ->
+     exists s', read_se s = (k, s') /\ rbits s' = rest /\ RGood s' /\ rdata s' = rdata s).
+Proof. exact (conj read_ue_spec57 read_se_spec57). Qed.
+Print Assumptions C13_read_golomb57.
 
 (* the bound is tight: without the range check (C13Model.write_ue = the code before repo commit 9ec0951) the value
    2^57 - 1 written after 7 pending bits corrupts the value written before it *)
@@ -337,15 +363,43 @@ Theorem C13_ue_bound_refuted :
 Proof. exact ue_bound_tight. Qed.
 Print Assumptions C13_ue_bound_refuted.
 
-(* ReadSignedGolomb at the uint boundary: equal to the standard mapping unless codeNum = 2^64 - 1, where the
-   uint addition wraps and Go returns 0 (stream: 64 zero bits, a one, 64 zero bits) *)
-Theorem C13_se_uint_boundary :
+(* WriteExpGolomb's prefix loop in wrapping uint arithmetic: the model's loop (computed in N) is the uint loop for
+   every value below the maximal uint, and for the maximal uint the loop does not return (finding C13-F2; the repaired
+   code no longer enters it) *)
+Theorem C13_ue_loop_uint :
+  (forall nr, nr < M64 -> ue_loop64 64 nr 0 0 0 = Some (ue_loop 64 nr 0 0 0)) /\
+  (forall fuel, N.of_nat fuel < 18446744073709551616 -> ue_loop64 fuel M64 0 0 0 = None).
+Proof. exact (conj ue_loop64_agrees ue_loop64_diverges). Qed.
+Print Assumptions C13_ue_loop_uint.
+
+(* ReadSignedGolomb at the integer boundaries: equal to the standard mapping unless codeNum = 2^64 - 1, where the
+   uint addition wraps and Go returns 0 (stream: 64 zero bits, a one, 64 zero bits); whatever the stream, the
+   conversions to int do not overflow *)
+Theorem C13_se_int_boundaries :
   (forall s, fst (read_ue s) < 18446744073709551615 -> read_se64 s = read_se s) /\
-  fst (read_ue (rinit se_boundary_stream)) = 18446744073709551615 /\
-  fst (read_se64 (rinit se_boundary_stream)) = 0%Z /\
-  rerr (snd (read_se64 (rinit se_boundary_stream))) = false.
-Proof. exact (conj read_se64_eq se_boundary). Qed.
-Print Assumptions C13_se_uint_boundary.
+  (fst (read_ue (rinit se_boundary_stream)) = 18446744073709551615 /\
+   fst (read_se64 (rinit se_boundary_stream)) = 0%Z /\
+   rerr (snd (read_se64 (rinit se_boundary_stream))) = false) /\
+  (forall s, (- 9223372036854775807 <= fst (read_se64 s) <= 9223372036854775807)%Z).
+Proof. exact (conj read_se64_eq (conj se_boundary read_se64_fits_int)). Qed.
+Print Assumptions C13_se_int_boundaries.
+
+(* Reader.ReadSigned: the 64-bit int arithmetic is two's complement for every width 1..64, stays in range, and a
+   signed value in range masked to n bits by Write comes back through it *)
+Theorem C13_read_signed_twos :
+  (forall v n, 1 <= n <= 64 -> v < 2 ^ n ->
+     sext64 v n = (if N.testbit v (n - 1) then (Z.of_N v - 2 ^ Z.of_N n)%Z else Z.of_N v) /\
+     (- 2 ^ (Z.of_N n - 1) <= sext64 v n < 2 ^ (Z.of_N n - 1))%Z) /\
+  (forall z n, 1 <= n <= 64 ->
+     (- 2 ^ (Z.of_N n - 1) <= z < 2 ^ (Z.of_N n - 1))%Z ->
+     sext64 (Z.to_N (z mod 2 ^ Z.of_N n)) n = z).
+Proof.
+  exact (conj (fun v n Hn Hv => conj (sext64_spec v n Hn Hv) (sext64_range v n Hn Hv)) sext64_twos).
+Qed.
+Print Assumptions C13_read_signed_twos.
+
+Example ex_signed : sext64 (Z.to_N ((-3) mod 2 ^ 5)) 5 = (-3)%Z /\ sext64 18446744073709551615 64 = (-1)%Z.
+Proof. vm_compute. split; reflexivity. Qed.
 
 (* ---- the round trip over the exact domain, through the repaired writer ---- *)
 (* any sequence of fixed-width (<= 57 bits, value fits), flag, ue (<= 2^57 - 2) and se values: no error, and the
@@ -373,30 +427,26 @@ Proof. vm_compute. reflexivity. Qed.
 
 (* ---- EBSPWriter / Writer over an io.Writer that fails after k bytes ---- *)
 (* the bytes delivered are the first k bytes of the fault-free output; AccError is set exactly when the output was
-   cut (or the fault-free run itself refused a value) *)
-Theorem C13_failing_writer_prefix : forall ops k,
-  xout (run_wx (Some k) ops) = firstn (N.to_nat k) (xout (run_wx None ops)) /\
-  xerr (run_wx (Some k) ops) = xerr (run_wx None ops) || (k <? lenN (xout (run_wx None ops))).
-Proof. exact failing_writer_prefix. Qed.
+   cut (or the fault-free run itself refused a value); first for EBSPWriter, then for Writer with Flush *)
+Theorem C13_failing_writer_prefix :
+  (forall ops k,
+     xout (run_wx (Some k) ops) = firstn (N.to_nat k) (xout (run_wx None ops)) /\
+     xerr (run_wx (Some k) ops) = xerr (run_wx None ops) || (k <? lenN (xout (run_wx None ops)))) /\
+  (forall ops k,
+     xout (run_wx_plain (Some k) ops) = firstn (N.to_nat k) (xout (run_wx_plain None ops)) /\
+     xerr (run_wx_plain (Some k) ops)
+     = xerr (run_wx_plain None ops) || (k <? lenN (xout (run_wx_plain None ops)))).
+Proof. exact (conj failing_writer_prefix failing_plain_writer_prefix). Qed.
 Print Assumptions C13_failing_writer_prefix.
 
-Theorem C13_failing_plain_writer_prefix : forall ops k,
-  xout (run_wx_plain (Some k) ops) = firstn (N.to_nat k) (xout (run_wx_plain None ops)) /\
-  xerr (run_wx_plain (Some k) ops) = xerr (run_wx_plain None ops) || (k <? lenN (xout (run_wx_plain None ops))).
-Proof. exact failing_plain_writer_prefix. Qed.
-Print Assumptions C13_failing_plain_writer_prefix.
-
-(* without a failure and with accepted values the error-aware model is the writer of C13Model: every theorem about
-   run_writer is a theorem about the code over a working io.Writer *)
-Theorem C13_faultfree_is_writer : forall ops,
-  forallb ue_ok ops = true -> run_wx None ops = mkWX (run_writer ops) false None.
-Proof. exact run_wx_is_run_writer. Qed.
-Print Assumptions C13_faultfree_is_writer.
-
-(* first error kept: every later write is a no-op on the whole state *)
-Theorem C13_writer_error_sticky : forall s o, xerr s = true -> wxstep s o = s.
-Proof. exact wxstep_after_error. Qed.
-Print Assumptions C13_writer_error_sticky.
+(* without a failure and with accepted values the error-aware model is the writer of C13Model (every theorem about
+   run_writer is a theorem about the code over a working io.Writer); once the error is set every later call is a
+   no-op on the whole state *)
+Theorem C13_writer_error_state :
+  (forall ops, forallb ue_ok ops = true -> run_wx None ops = mkWX (run_writer ops) false None) /\
+  (forall s o, xerr s = true -> wxstep s o = s).
+Proof. exact (conj run_wx_is_run_writer wxstep_after_error). Qed.
+Print Assumptions C13_writer_error_state.
 
 Example ex_failing_writer :
   xout (run_wx (Some 3) [WBits 0 16; WBits 1 8; WUe 7; WTrail]) = [0; 0; 3] /\
@@ -427,7 +477,8 @@ Proof.
 Qed.
 Print Assumptions C13_reader_eof_sticky.
 
-(* the read that fails returns 0 and has consumed every byte of the input: NrBytesRead = len(data) from then on *)
+(* the read that fails returns 0 and has consumed every byte of the input: NrBytesRead = len(data) from then on
+   (both readers, any width) *)
 Theorem C13_read_eof_position : forall esc s n,
   rerr s = false -> rpos s <= N.of_nat (length (rdata s)) ->
   rerr (snd (read_gen esc s n)) = true ->
@@ -436,70 +487,8 @@ Theorem C13_read_eof_position : forall esc s n,
 Proof. exact read_eof_position. Qed.
 Print Assumptions C13_read_eof_position.
 
-(* ... and it fails exactly when fewer than n bits are left (n <= 57) *)
-Theorem C13_read_past_end57 : forall s n,
-  RInv s -> rn s < 8 -> n <= 57 -> N.of_nat (length (rbits s)) < n ->
-  fst (read s n) = 0 /\ rerr (snd (read s n)) = true.
-Proof. exact read_fail57. Qed.
-Print Assumptions C13_read_past_end57.
-
 Example ex_eof_sticky :
   let s := snd (read (rinit [1; 2]) 24) in
   rerr s = true /\ nr_bytes_read s = 2 /\ fst (run_reader [RBits 8; RUe; RSe; RFlag; RMore] s)
   = [VN 0; VN 0; VZ 0; VB false; VMore None].
 Proof. vm_compute. repeat split. Qed.
-
-(* ---- Write for EVERY width up to 64: what exactly is lost when pending + n > 64 ---- *)
-(* the stream receives the n low bits of `bits` preceded by the pending bits with those that do not fit the
-   accumulator beside them (the topmost pending + n - 64) replaced by zeros; nothing else changes *)
-Theorem C13_write_exact_any : forall esc s raw bits n,
-  WInv esc s raw -> n <= 64 ->
-  exists raw',
-    WInv esc (write_gen esc s bits n) raw' /\
-    bytes_to_bits raw' ++ pending (write_gen esc s bits n)
-    = bytes_to_bits raw ++ bits_of (N.to_nat (wn s)) (wv s mod 2 ^ (64 - n)) ++ bits_of (N.to_nat n) bits /\
-    exists added, raw' = raw ++ added /\ Forall (fun b => b < 256) added.
-Proof. exact write_gen_any. Qed.
-Print Assumptions C13_write_exact_any.
-
-Theorem C13_pending_truncated : forall wn0 wv0 n,
-  n <= 64 ->
-  bits_of wn0 (wv0 mod 2 ^ (64 - n))
-  = repeat false (wn0 - N.to_nat (64 - n)) ++ bits_of (Nat.min wn0 (N.to_nat (64 - n))) wv0.
-Proof. exact pending_truncated. Qed.
-Print Assumptions C13_pending_truncated.
-
-(* ---- Reader.ReadSigned: the 64-bit int arithmetic is two's complement for every width 1..64 ---- *)
-Theorem C13_read_signed_twos : forall v n, 1 <= n <= 64 -> v < 2 ^ n ->
-  sext64 v n = (if N.testbit v (n - 1) then (Z.of_N v - 2 ^ Z.of_N n)%Z else Z.of_N v) /\
-  (- 2 ^ (Z.of_N n - 1) <= sext64 v n < 2 ^ (Z.of_N n - 1))%Z.
-Proof. intros v n Hn Hv. exact (conj (sext64_spec v n Hn Hv) (sext64_range v n Hn Hv)). Qed.
-Print Assumptions C13_read_signed_twos.
-
-(* a signed value in range, masked to n bits by Write, comes back through the sign extension *)
-Theorem C13_signed_roundtrip : forall z n, 1 <= n <= 64 ->
-  (- 2 ^ (Z.of_N n - 1) <= z < 2 ^ (Z.of_N n - 1))%Z ->
-  sext64 (Z.to_N (z mod 2 ^ Z.of_N n)) n = z.
-Proof. exact sext64_twos. Qed.
-Print Assumptions C13_signed_roundtrip.
-
-(* ReadSignedGolomb: whatever the stream, the conversions to int do not overflow *)
-Theorem C13_se_fits_int : forall s,
-  (- 9223372036854775807 <= fst (read_se64 s) <= 9223372036854775807)%Z.
-Proof. exact read_se64_fits_int. Qed.
-Print Assumptions C13_se_fits_int.
-
-(* ---- WriteExpGolomb's prefix loop in wrapping uint arithmetic ---- *)
-(* the model's loop (computed in N) is the uint loop for every value below the maximal uint ... *)
-Theorem C13_ue_loop_faithful : forall nr, nr < M64 -> ue_loop64 64 nr 0 0 0 = Some (ue_loop 64 nr 0 0 0).
-Proof. exact ue_loop64_agrees. Qed.
-Print Assumptions C13_ue_loop_faithful.
-
-(* ... and for the maximal uint the loop does not return (finding C13-F2; the repaired code no longer enters it) *)
-Theorem C13_ue_loop_hang_refuted : forall fuel,
-  N.of_nat fuel < 18446744073709551616 -> ue_loop64 fuel M64 0 0 0 = None.
-Proof. exact ue_loop64_diverges. Qed.
-Print Assumptions C13_ue_loop_hang_refuted.
-
-Example ex_signed : sext64 (Z.to_N ((-3) mod 2 ^ 5)) 5 = (-3)%Z /\ sext64 18446744073709551615 64 = (-1)%Z.
-Proof. vm_compute. split; reflexivity. Qed.
